@@ -623,14 +623,14 @@ func replayVal(c *core.Ctx, b *Built, p *valPayload) ([]finding, error) {
 		}
 	}
 	if b.Corpus.BytesVers != "" {
-		bytesVariantChecks(c, b, p, add)
+		bytesVariantChecks(c, b, p, jsonFromTL1, add)
 	}
 	return fs, nil
 }
 
 // bytesVariantChecks (C10): the []byte variant, given the same inputs, must produce the
 // same outputs as the specification prescribes for the string variant.
-func bytesVariantChecks(c *core.Ctx, b *Built, p *valPayload, add func(class, key, what string)) {
+func bytesVariantChecks(c *core.Ctx, b *Built, p *valPayload, stringVariantJSON string, add func(class, key, what string)) {
 	type inp struct {
 		op   string
 		step map[string]any
@@ -671,6 +671,10 @@ func bytesVariantChecks(c *core.Ctx, b *Built, p *valPayload, add func(class, ke
 				if got, err := parseJSON(s.Dump.JSON); err != nil || p.JSON.Match(got, "$") != nil {
 					add("bytesvar", key, fmt.Sprintf("[]byte variant after %s writes JSON %s which differs from the string variant/spec", in.op, s.Dump.JSON))
 				}
+			}
+			// "identical encodings": for the same content the two variants must print the same JSON text
+			if stringVariantJSON != "" && in.op == "read1" && s.Dump.JSON != stringVariantJSON {
+				add("bytesvar", key, fmt.Sprintf("[]byte variant prints JSON %s, the string variant %s", s.Dump.JSON, stringVariantJSON))
 			}
 		}
 	}
@@ -1020,6 +1024,13 @@ func replayFn(c *core.Ctx, b *Built, p *valPayload) ([]finding, error) {
 		}
 	}
 	checkJSON("1j", len(p.Res1))
+	// the caller's JSON context must reach the writer on every path (legacy constructor names: name#tag)
+	LegacyNames = true
+	checkJSON("1Lj", len(p.Res1))
+	if p.HasTL2 {
+		checkJSON("2Lj", len(p.Res2))
+	}
+	LegacyNames = false
 	checkBytes("j1", p.Res1, -1)
 	if p.HasTL2 {
 		checkBytes("12", p.Res2, len(p.Res1))
